@@ -242,4 +242,260 @@ Proof. unfold visit_char. destruct (one_scalar str); [|discriminate]. now intros
 Lemma visit_variant_st {V} (vs : list (bytes * V)) str bw s2 a : visit_variant vs str bw s2 = TOk a -> snd a = s2.
 Proof. unfold visit_variant. destruct (index_of str vs) as [[i v]|]; [|discriminate]. now intros [= <-]. Qed.
 
+
+(* ------------------------------------------------------------------------------------------ *)
+(** * 4. Frames *)
+
+(* what a map / struct visitor leaves of an object body: the closing brace after whitespace *)
+Definition MapRem (x : bytes) (r : bytes) : Prop := exists wl, ws_ok wl = true /\ r = wl ++ 125 :: x.
+
+Lemma map_rem_close x r r' : MapRem x r -> skipws r = 125 :: r' -> r' = x.
+Proof. intros (wl & Hwl & ->) H. rewrite skipws_to in H by (try assumption; reflexivity). now injection H as <-. Qed.
+
+Lemma frame_seq_rest {A} (body : st -> tres (A * st)) s0 a s5 w es x :
+  frame E end_seq end_seq_st body s0 = TOk (a, s5) -> rest s0 = 91 :: seq_text true w es ++ 93 :: x ->
+  (forall s' s3, rest s' = seq_text true w es ++ 93 :: x -> body s' = TOk (a, s3) -> SeqRem x (rest s3)) ->
+  rest s5 = x.
+Proof.
+  intros H Hs0 Hbody. apply (frame_ok_inv cf) in H as (s2 & s3 & s4 & Hen & Hb & Hlv & Hend).
+  assert (Hd2 : rest (discard s2) = seq_text true w es ++ 93 :: x).
+  { rewrite discard_restE, (enter_restE cf _ _ Hen), Hs0. reflexivity. }
+  pose proof (Hbody _ _ Hd2 Hb) as Hrem.
+  apply end_seq_invE in Hend. rewrite (leave_restE cf _ _ Hlv) in Hend. exact (seq_rem_close x _ _ Hrem Hend).
+Qed.
+
+Lemma frame_map_rest {A} (body : st -> tres (A * st)) s0 a s5 w ms x :
+  frame E end_map end_map_st body s0 = TOk (a, s5) -> rest s0 = 123 :: map_text true w ms ++ 125 :: x ->
+  (forall s' s3, rest s' = map_text true w ms ++ 125 :: x -> body s' = TOk (a, s3) -> MapRem x (rest s3)) ->
+  rest s5 = x.
+Proof.
+  intros H Hs0 Hbody. apply (frame_ok_inv cf) in H as (s2 & s3 & s4 & Hen & Hb & Hlv & Hend).
+  assert (Hd2 : rest (discard s2) = map_text true w ms ++ 125 :: x).
+  { rewrite discard_restE, (enter_restE cf _ _ Hen), Hs0. reflexivity. }
+  pose proof (Hbody _ _ Hd2 Hb) as Hrem.
+  apply end_map_invE in Hend. rewrite (leave_restE cf _ _ Hlv) in Hend. exact (map_rem_close x _ _ Hrem Hend).
+Qed.
+
+Lemma arr_text w es x : render (CArr w es) ++ x = 91 :: seq_text true w es ++ 93 :: x.
+Proof. rewrite render_arr. cbn [app]. rewrite <- app_assoc. reflexivity. Qed.
+Lemma obj_text w ms x : render (CObj w ms) ++ x = 123 :: map_text true w ms ++ 125 :: x.
+Proof. rewrite render_obj. cbn [app]. rewrite <- app_assoc. reflexivity. Qed.
+
+Lemma seq_frame {A} (body : st -> tres (A * st)) s a s5 c x :
+  deserialize_seq E body s = TOk (a, s5) -> skipws (rest s) = render c ++ x -> wfb c = true ->
+  (forall w es s' s3, c = CArr w es -> rest s' = seq_text true w es ++ 93 :: x -> body s' = TOk (a, s3) -> SeqRem x (rest s3)) ->
+  rest s5 = x.
+Proof.
+  unfold deserialize_seq. intros H Hr Hc Hbody. apply tbind_lift_ok in H as ([o s0] & Hpw & H).
+  destruct (pw_on_value cf s o s0 c x Hpw Hr Hc) as (b & rc & Hrc & -> & Hs0 & Hd0).
+  pose proof (head_cases c b rc Hc Hrc) as Hh. apply fix_ok in H.
+  destruct (b =? 91) eqn:E91; [|exfalso; exact (pit_never _ _ _ H)]. apply N.eqb_eq in E91. subst b.
+  destruct c as [| | |n|ps|w es|w ms]; try head_contra Hh.
+  apply (frame_seq_rest body s0 a s5 w es x H); [|intros s' s3; now apply Hbody].
+  rewrite Hs0, app_comm_cons, <- Hrc. apply arr_text.
+Qed.
+
+Lemma map_frame {A} (body : st -> tres (A * st)) s a s5 c x :
+  deserialize_map E body s = TOk (a, s5) -> skipws (rest s) = render c ++ x -> wfb c = true ->
+  (forall w ms s' s3, c = CObj w ms -> rest s' = map_text true w ms ++ 125 :: x -> body s' = TOk (a, s3) -> MapRem x (rest s3)) ->
+  rest s5 = x.
+Proof.
+  unfold deserialize_map. intros H Hr Hc Hbody. apply tbind_lift_ok in H as ([o s0] & Hpw & H).
+  destruct (pw_on_value cf s o s0 c x Hpw Hr Hc) as (b & rc & Hrc & -> & Hs0 & Hd0).
+  pose proof (head_cases c b rc Hc Hrc) as Hh. apply fix_ok in H.
+  destruct (b =? 123) eqn:E123; [|exfalso; exact (pit_never _ _ _ H)]. apply N.eqb_eq in E123. subst b.
+  destruct c as [| | |n|ps|w es|w ms]; try head_contra Hh.
+  apply (frame_map_rest body s0 a s5 w ms x H); [|intros s' s3; now apply Hbody].
+  rewrite Hs0, app_comm_cons, <- Hrc. apply obj_text.
+Qed.
+
+Lemma struct_frame {A} (body_seq body_map : st -> tres (A * st)) s a s5 c x :
+  deserialize_struct E body_seq body_map s = TOk (a, s5) -> skipws (rest s) = render c ++ x -> wfb c = true ->
+  (forall w es s' s3, c = CArr w es -> rest s' = seq_text true w es ++ 93 :: x -> body_seq s' = TOk (a, s3) -> SeqRem x (rest s3)) ->
+  (forall w ms s' s3, c = CObj w ms -> rest s' = map_text true w ms ++ 125 :: x -> body_map s' = TOk (a, s3) -> MapRem x (rest s3)) ->
+  rest s5 = x.
+Proof.
+  unfold deserialize_struct. intros H Hr Hc Hbs Hbm. apply tbind_lift_ok in H as ([o s0] & Hpw & H).
+  destruct (pw_on_value cf s o s0 c x Hpw Hr Hc) as (b & rc & Hrc & -> & Hs0 & Hd0).
+  pose proof (head_cases c b rc Hc Hrc) as Hh. apply fix_ok in H.
+  destruct (b =? 91) eqn:E91.
+  - apply N.eqb_eq in E91. subst b. destruct c as [| | |n|ps|w es|w ms]; try head_contra Hh.
+    apply (frame_seq_rest body_seq s0 a s5 w es x H); [|intros s' s3; now apply Hbs].
+    rewrite Hs0, app_comm_cons, <- Hrc. apply arr_text.
+  - destruct (b =? 123) eqn:E123; [|exfalso; exact (pit_never _ _ _ H)]. apply N.eqb_eq in E123. subst b.
+    destruct c as [| | |n|ps|w es|w ms]; try head_contra Hh.
+    apply (frame_map_rest body_map s0 a s5 w ms x H); [|intros s' s3; now apply Hbm].
+    rewrite Hs0, app_comm_cons, <- Hrc. apply obj_text.
+Qed.
+
+(* deserialize_enum, everything kept *)
+Lemma enum_ok_inv {A} (body_map body_unit : st -> tres (A * st)) s a s5 :
+  deserialize_enum E body_map body_unit s = TOk (a, s5) ->
+  exists b s0, parse_whitespace E s = Ok (Some b, s0) /\
+    ((b = 123 /\ exists s2 s3 s4 s6, enter E s0 = Ok s2 /\ body_map (discard s2) = TOk (a, s3) /\ leave E s3 = Ok s4
+                 /\ parse_whitespace E s4 = Ok (Some 125, s6) /\ s5 = discard s6)
+     \/ (b = 34 /\ body_unit s0 = TOk (a, s5))).
+Proof.
+  unfold deserialize_enum. intros H. apply tbind_lift_ok in H as ([o s0] & Hpw & H). destruct o as [b|]; [|discriminate H].
+  exists b, s0. split; [exact Hpw|].
+  destruct (b =? 123) eqn:E123.
+  - left. apply N.eqb_eq in E123. split; [exact E123|]. apply tbind_lift_ok in H as (s2 & Hen & H).
+    destruct (body_map (discard s2)) as [[a' s3]|c i|kk s'| |] eqn:Hb.
+    + apply tbind_lift_ok in H as (s4 & Hlv & H). apply tbind_lift_ok in H as ([o2 s6] & Hpw2 & H).
+      destruct o2 as [c|]; [|unfold error in H; discriminate H].
+      destruct (c =? 125) eqn:E125; [|unfold error in H; discriminate H]. apply N.eqb_eq in E125. subst c.
+      injection H as <- <-. exists s2, s3, s4, s6. auto.
+    + discriminate H.
+    + apply tbind_lift_ok in H as (s4 & _ & H). discriminate H.
+    + discriminate H.
+    + discriminate H.
+  - destruct (b =? 34) eqn:E34; [|unfold peek_error in H; discriminate H]. right. apply N.eqb_eq in E34. auto.
+Qed.
+
+(* ------------------------------------------------------------------------------------------ *)
+(** * 5. Map keys: the MapKey requests on the text of a key *)
+
+Lemma peek_invE s o s1 : peek E s = Ok (o, s1) -> rest s1 = rest s /\ o = hd_error (rest s).
+Proof. unfold peek. destruct (rest s) as [|b r] eqn:Hr; cbn; intros [= <- <-]; cbn [rest]; auto. Qed.
+
+Lemma peek_or_null_restE s c s1 : peek_or_null E s = Ok (c, s1) -> rest s1 = rest s.
+Proof.
+  unfold peek_or_null. intros H. apply bind_ok in H as ([o s'] & Hp & H). apply peek_invE in Hp as [Hp _]. now injection H as _ <-.
+Qed.
+
+(* the closing quote of a string literal is the first quote that is not preceded by a backslash: a run of plain
+   characters followed by a quote ends the literal there *)
+Lemma lit_unique u z ps y : forallb rawok u = true -> u ++ 34 :: z = flat_map render_piece ps ++ 34 :: y -> str_ok ps = true -> z = y.
+Proof.
+  intros Hu Heq Hok. rewrite <- (render_raw u) in Heq.
+  destruct (render_unique (map PRaw u) ps z y (raw_pieces_ok u Hu) Hok Heq) as [_ G]. exact G.
+Qed.
+
+Lemma numchars_rawok u : forallb numchar u = true -> forallb rawok u = true.
+Proof. apply forallb_impl. intros b Hb. now apply numchar_rawok. Qed.
+
+(* a request that, started on a non-whitespace byte, reads a run of number characters *)
+Definition numeric_delegate (dl : st -> tres (dval * st)) : Prop :=
+  forall s0 b r d s', rest s0 = b :: r -> ws_byte b = false -> dl s0 = TOk (d, s') ->
+  exists u, rest s0 = u ++ rest s' /\ forallb numchar u = true.
+
+Lemma render_abs_numchars n : num_ok n = true -> forallb numchar (render_abs n) = true.
+Proof. intros Hn. unfold render_abs. apply num_ok_numchars. exact Hn. Qed.
+
+Lemma number_gen_numeric P visit :
+  (forall positive s0 p s1, P positive s0 = Ok (p, s1) -> exists n, num_ok n = true /\ rest s0 = render_abs n ++ rest s1) ->
+  keeps_state visit -> numeric_delegate (number_gen P visit).
+Proof.
+  intros HP Hv s0 b r d s' Hr Hb H. unfold number_gen in H. apply tbind_lift_ok in H as ([o s1] & Hpw & H).
+  apply pw_invE in Hpw as [H1 H2]. rewrite Hr, (skipws_head b r Hb) in H1. rewrite H1 in H2. cbn [hd_error] in H2. subst o.
+  apply fix_ok in H. destruct (b =? 45) eqn:E45.
+  - apply N.eqb_eq in E45. subst b. apply tbind_lift_ok in H as ([p s2] & Hn & H). apply Hv in H. subst s'.
+    apply HP in Hn as (n & Hok & Hn). rewrite discard_restE, H1 in Hn. cbn [tl] in Hn.
+    exists (45 :: render_abs n). split; [rewrite Hr, Hn; reflexivity|]. cbn [forallb]. now rewrite render_abs_numchars.
+  - destruct (is_digit b) eqn:Edig; [|exfalso; exact (pit_never _ _ _ H)].
+    apply tbind_lift_ok in H as ([p s2] & Hn & H). apply Hv in H. subst s'.
+    apply HP in Hn as (n & Hok & Hn). rewrite H1 in Hn.
+    exists (render_abs n). split; [rewrite Hr; exact Hn|]. now apply render_abs_numchars.
+Qed.
+
+Lemma number_numeric visit : keeps_state visit -> numeric_delegate (deserialize_number E visit).
+Proof.
+  intros Hv. change (deserialize_number E visit) with (number_gen (parse_integer E) visit).
+  apply number_gen_numeric; [|exact Hv]. intros positive. apply (parse_integer_sound E (HE cf)).
+Qed.
+
+Lemma number_s_numeric visit : keeps_state visit -> numeric_delegate (deserialize_number_s E visit).
+Proof.
+  intros Hv. change (deserialize_number_s E visit) with (number_gen (parse_integer_s E) visit).
+  apply number_gen_numeric; [|exact Hv]. intros positive. apply (parse_integer_s_sound E (HE cf)).
+Qed.
+
+Lemma f32_numeric : numeric_delegate (deserialize_f32 E).
+Proof.
+  unfold deserialize_f32. destruct (float_roundtrip (Read.cf E)).
+  - apply number_s_numeric, visit_f32_keeps.
+  - apply number_numeric, visit_f32_keeps.
+Qed.
+
+Lemma scan128_sound s buf s2 : scan_integer128 E s = Ok (buf, s2) -> exists u, rest s = u ++ rest s2 /\ forallb is_digit u = true.
+Proof.
+  unfold scan_integer128, next. destruct (rest s) as [|c r] eqn:Hr.
+  - cbn. discriminate.
+  - cbn [bind]. destruct (c =? 48) eqn:E48.
+    + apply N.eqb_eq in E48. subst c. intros H. apply bind_ok in H as ([c2 s1] & Hp & H).
+      apply peek_or_null_restE in Hp. cbn [rest] in Hp. destruct (is_digit c2); [unfold peek_error in H; discriminate H|].
+      injection H as _ <-. exists [48]. rewrite Hp. split; reflexivity.
+    + destruct (is_digit19 c) eqn:E19; [|unfold error; discriminate].
+      cbn [rest]. cbv zeta. intros H. apply bind_ok in H as ([c2 s1] & Hp & H). apply peek_or_null_restE in Hp.
+      unfold advance in Hp. cbn [rest] in Hp. injection H as _ <-.
+      exists (c :: firstn (span_len is_digit r) r). split.
+      * rewrite Hp. cbn [app]. now rewrite firstn_skipn.
+      * cbn [forallb]. rewrite GrammarIgnore.span_len_firstn. unfold is_digit19 in E19. unfold is_digit. lia.
+Qed.
+
+Lemma i128_numeric : numeric_delegate (deserialize_i128 E).
+Proof.
+  intros s0 b r d s' Hr Hb H. unfold deserialize_i128 in H. apply tbind_lift_ok in H as ([o s1] & Hpw & H).
+  apply pw_invE in Hpw as [H1 H2]. rewrite Hr, (skipws_head b r Hb) in H1. rewrite H1 in H2. cbn [hd_error] in H2. subst o.
+  cbv zeta in H. apply tbind_lift_ok in H as ([buf s2] & Hsc & H).
+  destruct (parse_i128 (b =? 45) buf) as [z|]; [|unfold error in H; discriminate H]. injection H as _ <-.
+  apply scan128_sound in Hsc as (u & Hu & Hd). destruct (b =? 45) eqn:E45.
+  - apply N.eqb_eq in E45. subst b. rewrite discard_restE, H1 in Hu. cbn [tl] in Hu.
+    exists (45 :: u). split; [rewrite Hr, Hu; reflexivity|]. cbn [forallb]. now rewrite (digits_numchar u Hd).
+  - rewrite H1 in Hu. exists u. split; [rewrite Hr; exact Hu|]. now apply digits_numchar.
+Qed.
+
+Lemma u128_numeric : numeric_delegate (deserialize_u128 E).
+Proof.
+  intros s0 b r d s' Hr Hb H. unfold deserialize_u128 in H. apply tbind_lift_ok in H as ([o s1] & Hpw & H).
+  apply pw_invE in Hpw as [H1 H2]. rewrite Hr, (skipws_head b r Hb) in H1. rewrite H1 in H2. cbn [hd_error] in H2. subst o.
+  destruct (b =? 45) eqn:E45; [unfold peek_error in H; discriminate H|].
+  apply tbind_lift_ok in H as ([buf s2] & Hsc & H).
+  destruct (parse_u128 buf) as [z|]; [|unfold error in H; discriminate H]. injection H as _ <-.
+  apply scan128_sound in Hsc as (u & Hu & Hd). rewrite H1 in Hu. exists u. split; [rewrite Hr; exact Hu|]. now apply digits_numchar.
+Qed.
+
+Lemma int_numeric t : numeric_delegate (deserialize_int E t).
+Proof.
+  destruct t; try (apply number_numeric, visit_int_keeps); [apply i128_numeric|apply u128_numeric].
+Qed.
+
+(* deserialize_numeric_key! : the delegate must stop exactly at the closing quote *)
+Lemma numeric_key_rest dl s d s1 ps y : numeric_delegate dl ->
+  numeric_key E dl s = TOk (d, s1) -> rest s = 34 :: flat_map render_piece ps ++ 34 :: y -> str_ok ps = true -> rest s1 = y.
+Proof.
+  intros Hdl H Hr Hok. unfold numeric_key in H. cbv zeta in H. apply tbind_lift_ok in H as ([o s0] & Hpk & H).
+  apply peek_invE in Hpk as [H1 H2]. rewrite discard_restE, Hr in H1, H2. cbn [tl] in H1, H2.
+  destruct o as [b|]; [|unfold peek_error in H; discriminate H].
+  destruct (is_digit b || (b =? 45)) eqn:Eb; [|unfold error in H; discriminate H].
+  apply tbind_ok in H as ([d0 s2] & Hd & H). apply tbind_lift_ok in H as ([o2 s3] & Hpk2 & H).
+  apply peek_invE in Hpk2 as [H3 H4].
+  destruct o2 as [c|]; [|unfold peek_error in H; discriminate H].
+  destruct (c =? 34) eqn:E34; [|unfold peek_error in H; discriminate H]. apply N.eqb_eq in E34. subst c.
+  injection H as _ <-. rewrite discard_restE, H3.
+  destruct (rest s2) as [|q z] eqn:Hs2; [discriminate H4|]. injection H4 as <-. cbn [tl].
+  destruct (flat_map render_piece ps ++ 34 :: y) as [|b' r'] eqn:Hlit; [discriminate H2|]. injection H2 as ->.
+  assert (Hbw : ws_byte b' = false) by (unfold ws_byte; unfold is_digit in Eb; lia).
+  destruct (Hdl s0 b' r' d0 s2 H1 Hbw Hd) as (u & Hu & Hnum). rewrite H1, Hs2 in Hu.
+  exact (lit_unique u z ps y (numchars_rawok u Hnum) (eq_sym Hu) Hok).
+Qed.
+
+Lemma key_bool_rest s d s1 ps y :
+  key_bool E s = TOk (d, s1) -> rest s = 34 :: flat_map render_piece ps ++ 34 :: y -> str_ok ps = true -> rest s1 = y.
+Proof.
+  intros H Hr Hok. unfold key_bool in H. cbv zeta in H. apply tbind_lift_ok in H as ([o s0] & Hpk & H).
+  apply peek_invE in Hpk as [H1 H2]. rewrite discard_restE, Hr in H1, H2. cbn [tl] in H1, H2.
+  destruct o as [b|]; [|unfold peek_error in H; discriminate H]. apply fix_ok in H.
+  destruct (flat_map render_piece ps ++ 34 :: y) as [|b' r'] eqn:Hlit; [discriminate H2|]. injection H2 as ->.
+  destruct (b' =? 116) eqn:E1.
+  - apply N.eqb_eq in E1. subst b'. apply tbind_lift_ok in H as (s2 & Hid & H). injection H as _ <-.
+    apply ident_invE in Hid. rewrite discard_restE, H1 in Hid. cbn [tl] in Hid. subst r'.
+    apply (lit_unique [116;114;117;101] (rest s2) ps y eq_refl); [|exact Hok]. symmetry. exact Hlit.
+  - destruct (b' =? 102) eqn:E2.
+    + apply N.eqb_eq in E2. subst b'. apply tbind_lift_ok in H as (s2 & Hid & H). injection H as _ <-.
+      apply ident_invE in Hid. rewrite discard_restE, H1 in Hid. cbn [tl] in Hid. subst r'.
+      apply (lit_unique [102;97;108;115;101] (rest s2) ps y eq_refl); [|exact Hok]. symmetry. exact Hlit.
+    + apply tbind_lift_ok in H as ([x1 s2] & _ & H). discriminate H.
+Qed.
+
 End Leaves.
